@@ -33,8 +33,21 @@ Definition e_prefix (d : data) : data :=
   let l := d_zl (dnth 1 d) in
   L [ ebool (ok_prefix (dnat (dnth 0 d)) l); match first_dup l with Some i => enat i | None => I (-1) end ].
 
+Definition d_cop (d : data) : cop :=
+  let k := dZ (dnth 0 d) in
+  if k =? 0 then CAsk else if k =? 1 then CTell (dbool (dnth 1 d)) (dbool (dnth 2 d)) else CDirectTell.
+Definition d_kind (d : data) : kind := let k := dZ d in if k =? 0 then KAsk else if k =? 1 then KTell else KUpd.
+Definition e_kind (k : kind) : data := I (match k with KAsk => 0 | KTell => 1 | KUpd => 2 end).
+
+(* 805: [CBO-level calls; observed kinds of the optimizer-level events] -> [observed = wrap false calls; wrap false calls; observed alternates] *)
+Definition e_wrap (d : data) : data :=
+  let ops := dmap d_cop (dnth 0 d) in
+  let ks := dmap d_kind (dnth 1 d) in
+  L [ ebool (kinds_eqb ks (wrap false ops)); elist e_kind (wrap false ops); ebool (alt_k false ks) ].
+
 Definition entries : list (Z * (data -> data)) :=
   [ (801, e_replay);
     (802, e_prefix);
     (803, fun d => elist eZ (filter_dup (d_zl (dnth 0 d)) (d_zl (dnth 1 d))));
-    (804, fun d => ebool (has_new (d_zl (dnth 0 d)) (d_zl (dnth 1 d)))) ].
+    (804, fun d => ebool (has_new (d_zl (dnth 0 d)) (d_zl (dnth 1 d))));
+    (805, e_wrap) ].
